@@ -9,6 +9,13 @@ T4 == << 101, 36, 248, 0 >>
 Opts == << << << 97 >>, << 98 >> >>, << << 99, 97, 112, 115 >>, << 102, 82 >> >> >>
 Id(kind, st, ct) == EncIdentity(kind, st, ct, st + ct + 1)
 Addr == EncRouterAddress(5, Zeros(8), << 78, 84, 67, 80, 50 >>, << << << 104, 111, 115, 116 >>, << 49, 46, 50, 46, 51, 46, 52 >> >>, << << 112, 111, 114, 116 >>, << 56, 48 >> >> >>)
+Unsorted == << << << 118 >>, << 50 >> >>, << << 99, 97, 112, 115 >>, << 102, 82 >> >>, << << 97 >>, << 98 >> >> >>     \* wire order v, caps, a
+AddrU == EncRouterAddress(5, Zeros(8), << 83, 83, 85, 50 >>, << << << 112, 111, 114, 116 >>, << 56, 48 >> >>, << << 104, 111, 115, 116 >>, << 49, 46, 50, 46, 51, 46, 52 >> >> >>)
+ShapesU ==
+  << << "ReadMapping", SerMapping(Unsorted), << >> >>, << "NewMapping", SerMapping(Unsorted), << >> >>, << "ReadRouterAddress", AddrU, << >> >>,
+     << "ReadRouterInfo", EncRouterInfo(Id("key", 7, 4), 7, Zeros(8), << AddrU, Addr >>, 0, Unsorted, 3), << >> >>,
+     << "ReadLeaseSet2", EncLS2(Id("key", 7, 4), T4, << 2, 88 >>, 0, << >>, Unsorted, 1, << EncEncKey(4, 32, Fill(32, 1)) >>, 1, << EncLease2(1, T4, T4) >>, 7, 3), << >> >>,
+     << "ReadMetaLeaseSet", EncMeta(Id("key", 7, 4), T4, << 2, 88 >>, 0, << >>, Unsorted, 1, << EncMetaEntry(1, 3, T4, 1, Unsorted) >>, 7, 3), << >> >> >>
 Shapes ==
   << << "ReadCertificate", << 5, 0, 6, 0, 7, 0, 4, 9, 9 >>, << >> >>, << "ReadCertificate", << 0, 0, 0 >>, << >> >>, << "NewKeyCertificate", << 5, 0, 4, 0, 7, 0, 4 >>, << >> >>,
      << "KeyCertificateFromCertificate", << 5, 0, 4, 0, 11, 0, 4 >>, << >> >>,
@@ -25,7 +32,7 @@ Shapes ==
      << "ReadEncryptedLeaseSet", EncELS(11, T4, << 2, 88 >>, 1, EncOffline(T4, 7, 11, 2), 100, Fill(100, 2), 7, 3), << >> >>,
      << "ReadOfflineSignature", EncOffline(T4, 7, 7, 2), [typ |-> 7] >>, << "ReadSignature", Fill(64, 1), [typ |-> 7] >>,
      << "ReadLease", Fill(44, 1), << >> >>, << "ReadLease2", Fill(40, 1), << >> >> >>
-Vecs == Cross2(Shapes, Ns, LAMBDA sh, n : [op |-> "Concurrent", fn |-> sh[1], in |-> sh[2], n |-> n, reps |-> Reps, cls |-> "n" \o ToString(n)] @@ sh[3])
+Vecs == Cross2(Shapes \o ShapesU, Ns, LAMBDA sh, n : [op |-> "Concurrent", fn |-> sh[1], in |-> sh[2], n |-> n, reps |-> Reps, cls |-> "n" \o ToString(n)] @@ sh[3])
 VARIABLE done
 Init == done = FALSE
 Next == ~done /\ ndJsonSerialize(OutFile, Vecs) /\ PrintT(<< "GENERATED", Len(Vecs) >>) /\ done' = TRUE
